@@ -5,6 +5,28 @@ NOTES = ("Every check runs: translator -> lake build of the property's theorem m
          "the hook can record the value actually returned (no line is deleted, behaviour is unchanged).")
 NOT_YET = {}
 CLAIMS = {
+    "C17": {
+        "text": "PARTIAL (foreign parsers not modelled). Machine-checked Lean theorems for every byte string on the modelled loaders: the "
+                "character-map blob loader never panics and checks its size field; decoding a native file never reads past the input, "
+                "never yields more elements than input bytes, rejects every proper prefix of a valid file, wrong headers and invalid "
+                "regexes. The four foreign-format loaders and auto-detection are decided by structure-aware generation and mutation of "
+                "generated and shipped files on the real code in child processes.",
+        "design_ref": "DESIGN.md §6 C17",
+        "note": "Partial: the protobuf / JSON / base64 parsing and the converters' logic are outside the Lean model; for them the check is "
+                "a mutation campaign on the implementation, not a theorem. Memory exhaustion through declared sizes is excluded by the property.",
+        "technique": "Lean 4 proof over executable model (native format, character map) + differential correspondence; mutation runs of the real loaders for foreign formats",
+    },
+    "C19": {
+        "text": "PARTIAL (runtime concurrency not modelled). Machine-checked Lean theorems over the session model: answers are independent "
+                "of history, order and interleaving; the source has exactly the one lazily initialised static the model lists "
+                "(regenerated on every run); export is independent of hash iteration order. The implementation's answers under 2-16 "
+                "threads, call histories, fresh processes and the build without CPU dispatch are compared with the model and with "
+                "isolated calls.",
+        "design_ref": "DESIGN.md §6 C19",
+        "note": "Partial: data races, memory ordering and the regex engine's internal caches are runtime behaviour the model cannot "
+                "exhibit; only the interleavings the scheduler happens to run are observed.",
+        "technique": "Lean 4 proof over a session (state-machine) model + translator-regenerated list of state sites + differential correspondence under threads, processes and two builds",
+    },
     "C14": {
         "text": "Machine-checked Lean theorems: the wire layout of the model equals the layout extracted from the Rust source on every run; "
                 "binary round trip for every representable definition (all fields, bit-exact scores); same bytes on re-serialization; "
